@@ -66,10 +66,25 @@ AXES = [
     #   mzm-bw   MZM(BW=.)  optical band-pass of full width min(4R, 0.8 fs)  (the block designs a low-pass at BW/2 < fs/2)
     #   dac-bias the bias of the drive is given to DAC(bias=-Vpi) instead of MZM(bias=-Vpi), and 'nrz' is spelt 'rect'
     #            (documented as equivalent); the modulator sees the same voltage
-    ('txopt', ['std', 'dac-bw', 'mzm-bw', 'dac-bias']),
+    #   drive-nd the drive is handed to MZM as the plain ndarray of the DAC waveform (documented: converted to electrical_signal)
+    ('txopt', ['std', 'dac-bw', 'mzm-bw', 'dac-bias', 'drive-nd']),
     # optional arguments of PD that cannot matter with the noise switched off: temperature and amplifier noise figure
     # (only enter the thermal variance), given non-default (T=77 K, Fn=6 dB); i_dark=0 removes the deterministic offset too
-    ('pdopt', ['std', 'alt']),
+    #   case     include_noise='ASE-Only' (the block documents that it lower-cases the string)
+    ('pdopt', ['std', 'alt', 'case']),
+    # --- hardening pass: HOW the same link is written down (same bits, same grid, same numbers -> same oracle)
+    # container in which the bit word is handed to DAC (every documented form: str, str with separators, list, tuple,
+    # ndarray of several dtypes - passed write-protected -, binary_sequence).  In ook.dsp the SAME object is afterwards
+    # the Tx of BER_analizer('counter'); in ppm.dsp it is the input of PPM_ENCODER and the Tx of the counter.
+    ('bits', ['u8', 'str', 'str-sep', 'list', 'tuple', 'bs', 'bool', 'i8', 'i64', 'f32', 'f64']),
+    # how the global grid is configured (see configure_gv): by (sps,R) | (sps,fs) | (R,fs) | R first, then fs alone |
+    # (R,fs) with a NON-integer fs/R = sps+0.3 / sps-0.4 (the library rounds to sps; link parameters then respect the quantifier
+    # for BOTH readings of the slot rate, gv.R and gv.fs/gv.sps) | after another grid had been configured, with N set and
+    # wavelength 1310 nm
+    ('gv', ['sps,R', 'sps,fs', 'R,fs', 'fs', 'R,fs+', 'R,fs-', 'hist']),
+    # number form of every scalar argument: Python float | Python int where the value is integer-valued | np.float64 (+ np.int64
+    # sps / sampling instant) | np.int64 where integer-valued and the block has no documented scalar-type test, else np.float64
+    ('num', ['float', 'int', 'np', 'npint']),
 ]
 NAMES = [a for a, _ in AXES]
 BASE = tuple(v[0] for _, v in AXES)
@@ -102,6 +117,16 @@ def lattice(k):
 # (k<=2), while the lattice over the remaining values stays at k<=3 in both tiers.
 OPTION_VALUES = {('layout', '2pol-y'), ('chan', 'dmH+'), ('chan', 'dmH-'), ('chan', 'fiberD+'), ('chan', 'fiberD-'),
                  ('txopt', 'dac-bw'), ('txopt', 'mzm-bw'), ('txopt', 'dac-bias'), ('pdopt', 'alt')}
+# hardening pass: further call forms (same rule: quick k<=2, thorough k<=3) and the three "notation" axes, all of whose values
+# are option deviations
+NOTATION_AXES = ('bits', 'gv', 'num')
+OPTION_VALUES |= {('txopt', 'drive-nd'), ('pdopt', 'case')}
+OPTION_VALUES |= {(a, v) for a, vals in AXES if a in NOTATION_AXES for v in vals[1:]}
+
+
+def is_notation(cfg):
+    """the configuration deviates in one of the notation axes (bits container / gv call form / number form)"""
+    return any(cfg[NAMES.index(a)] != BASE[NAMES.index(a)] for a in NOTATION_AXES)
 
 
 def has_option(cfg):
@@ -132,6 +157,8 @@ CORNERS = [
     point(sps=5, pulse='gaussian'),
     point(sps=7, pulse='gaussian', chan='dm+'),
 ]
+# configurations on which the packaged routines see the long records in the quick tier (> 8192 slots costs ~1 CPU s per ook.DSP)
+LONG_CFGS = [BASE, point(sps=4), point(sps=7, pulse='gaussian', chan='dm+'), point(layout='2pol-rot', bwf=2.0)]
 K2_CORNERS = {point(launch=10.0, RL=1000.0), point(sps=33, chan='dm+'), point(sps=64, chan='fiber-'), point(bwf=2.0, chan='dm-'),
               point(sps=4, pulse='gaussian'), point(sps=5, pulse='gaussian')}
 
@@ -195,6 +222,11 @@ def fixed_words(seed):
     ]
 
 
+def long_words(n, seed):
+    """long records: seeded random, a single 1 in the last / first slot (record edges), a single 0 in the last slot"""
+    return [seeded(n, seed, n), '0' * (n - 1) + '1', '1' + '0' * (n - 1), '1' * (n - 1) + '0']
+
+
 def all_words(n):
     """all 2^n - 2 words of length n containing both symbols, in counting order"""
     return [format(i, f'0{n}b') for i in range(1, 2 ** n - 1)]
@@ -216,24 +248,113 @@ class CallFormError(Exception):
     """a documented alternative call form did not return what its docstring says (reported as a violation, not a crash)"""
 
 
+class Outside(Exception):
+    """the library settled on a grid outside the quantifier (sps not in 4..64); only reachable from the non-integer fs/R forms"""
+
+
+def numform(form):
+    """(f, fd, fi): f puts a scalar argument into the number form of the `num` axis; fd is used for the arguments whose block has a
+    documented isinstance(int, float) scalar test (DAC Vout/bias, PD r/T/R_load: numpy integers are answered with the documented
+    TypeError there - owned by the properties of those blocks), fi for integer arguments (sps, sampling instant)"""
+    def isint(x):
+        return float(x).is_integer() and abs(x) < 2 ** 53
+    if form == 'float':
+        return (lambda x: x), (lambda x: x), int
+    if form == 'int':
+        g = lambda x: int(x) if isint(x) else x
+        return g, g, int
+    if form == 'np':
+        return np.float64, np.float64, np.int64
+    assert form == 'npint'
+    return (lambda x: np.int64(x) if isint(x) else np.float64(x)), np.float64, np.int64
+
+
+GV_FRACTIONAL = {'R,fs+': 0.3, 'R,fs-': -0.4}
+
+
+def configure_gv(form, sps, R, f, fi):
+    """Configure the global grid 'sps samples per slot at slot rate R' in the call form `form` of the `gv` axis.
+    Returns (gv.sps as the library settled it, fs handed over / implied)."""
+    import warnings
+    from opticomlib.typing import gv
+    fs = sps * R
+    with warnings.catch_warnings():
+        warnings.simplefilter('ignore')
+        if form == 'sps,R':
+            gv_reset(sps=fi(sps), R=f(R))
+        elif form == 'sps,fs':
+            gv_reset(sps=fi(sps), fs=f(fs))
+        elif form == 'R,fs':
+            gv_reset(R=f(R), fs=f(fs))
+        elif form == 'fs':                       # the slot rate first (sps stays at its default), then the sampling rate alone
+            gv_reset(R=f(R))
+            gv(fs=f(fs))
+        elif form in GV_FRACTIONAL:              # non-integer fs/R: the library rounds it to sps and keeps the fs it was given
+            fs = (sps + GV_FRACTIONAL[form]) * R
+            gv_reset(R=f(R), fs=f(fs))
+        else:                                    # a different grid was configured before (no clean in between); N set; 1310 nm
+            assert form == 'hist'
+            gv_reset(sps=4 if sps == 64 else 64, R=2.5e9, N=10)
+            gv(sps=fi(sps), R=f(R), wavelength=1310e-9, N=3)
+    return gv.sps, fs
+
+
+def as_container(bits, form):
+    """the bit word in the container `form` of the `bits` axis (ndarrays write-protected)"""
+    from opticomlib.typing import binary_sequence
+    if form == 'u8':
+        return bits
+    w = ''.join(map(str, bits.tolist()))
+    if form == 'str':
+        return w
+    if form == 'str-sep':                        # groups of 4 (last one shorter), separated by ' ' and ', ' in turn
+        g = [w[i:i + 4] for i in range(0, len(w), 4)]
+        return ''.join(x + ('' if i == len(g) - 1 else (' ', ', ')[i % 2]) for i, x in enumerate(g))
+    if form == 'list':
+        return bits.tolist()
+    if form == 'tuple':
+        return tuple(bits.tolist())
+    if form == 'bs':
+        return binary_sequence(bits.copy())
+    a = bits.astype({'bool': np.bool_, 'i8': np.int8, 'i64': np.int64, 'f32': np.float32, 'f64': np.float64}[form])
+    a.flags.writeable = False
+    return a
+
+
 def run_link(cfg, bits):
-    """bits: uint8 array.  Returns the PD output (electrical_signal)."""
-    import contextlib, io
+    """bits: uint8 array.  Returns (PD output (electrical_signal), info) with info = dict(sps = gv.sps of the configured grid,
+    instant = sps//2 in the number form of the case, tx = the object that was handed to DAC)."""
+    import contextlib, io, math
     from opticomlib.devices import DAC, MZM, DM, FIBER, PD
     from opticomlib.typing import optical_signal
     d = dict(zip(NAMES, cfg))
-    sps, R = d['sps'], d['R']
-    gv_reset(sps=sps, R=R)
-    fs = sps * R
+    R = d['R']
+    f, fd, fi = numform(d['num'])
+    sps, fs = configure_gv(d['gv'], d['sps'], R, f, fi)
+    if d['gv'] in GV_FRACTIONAL:
+        # the statement does not say how a non-integer fs/R is rounded: either neighbour is accepted.  The simulated slot lasts
+        # sps/fs, gv.R says 1/R: the link parameters below respect the quantifier for both (the higher rate for the PD bandwidth,
+        # the shorter slot for the dispersion bound)
+        ok = type(sps) is int and sps in (math.floor(fs / R), math.ceil(fs / R))
+        if ok and not 4 <= sps <= 64:
+            raise Outside(f'sps={sps}')
+        Rq = max(R, fs / sps) if ok else R
+    else:
+        ok = type(sps) is int and sps == d['sps']
+        Rq = R
+    if not ok:
+        raise CallFormError(f'grid configured in the form {d["gv"]!r} (sps={d["sps"]}, R={R:g}, fs={fs:g}): gv.sps = {sps!r}')
     n = bits.size * sps
     tx = d['txopt']
+    txobj = as_container(bits, d['bits'])
+    Vpi = d['Vpi']
     dac_kw = {}
     if tx == 'dac-bw':
-        dac_kw['BW'] = min(2 * R, 0.4 * fs)
+        dac_kw['BW'] = f(min(2 * Rq, 0.4 * fs))
     if tx == 'dac-bias':
-        v = DAC(bits, bias=-d['Vpi'], Vout=d['Vpi'], pulse_shape='rect' if d['pulse'] == 'nrz' else d['pulse'])
+        v = DAC(txobj, bias=fd(-Vpi), Vout=fd(Vpi), pulse_shape='rect' if d['pulse'] == 'nrz' else d['pulse'])
     else:
-        v = DAC(bits, Vout=d['Vpi'], pulse_shape=d['pulse'], **dac_kw)
+        v = DAC(txobj, Vout=fd(Vpi), pulse_shape=d['pulse'], **dac_kw)
     P = 1e-3 * 10 ** (d['launch'] / 10)                       # launch power in W
     if d['layout'] == '1pol':
         cw = optical_signal(np.full(n, P ** 0.5))
@@ -242,24 +363,25 @@ def run_link(cfg, bits):
         cw = optical_signal(np.array([np.full(n, a), np.full(n, a)]))
     mzm_kw = {}
     if tx != 'dac-bias':
-        mzm_kw['bias'] = -d['Vpi']
+        mzm_kw['bias'] = f(-Vpi)
     if tx == 'mzm-bw':
-        mzm_kw['BW'] = min(4 * R, 0.8 * fs)
+        mzm_kw['BW'] = f(min(4 * Rq, 0.8 * fs))
     if d['layout'] == '2pol-y':
         mzm_kw['pol'] = 'y'
-    m = MZM(cw, v, Vpi=d['Vpi'], loss_dB=d['loss'], ER_dB=d['ER'], **mzm_kw)
+    drive = np.asarray(v.signal) if tx == 'drive-nd' else v
+    m = MZM(cw, drive, Vpi=f(Vpi), loss_dB=f(d['loss']), ER_dB=f(d['ER']), **mzm_kw)
     if d['layout'] == '2pol-rot':
         e = np.array(m.signal[0])
         m = optical_signal(np.array([e / 2 ** 0.5, -e / 2 ** 0.5]))
     ch = d['chan']
     if ch != 'none':
-        T2 = (1e12 / R) ** 2                                   # slot period squared, ps^2
+        T2 = (1e12 / Rq) ** 2                                  # slot period squared, ps^2
         D = DISP_FRACTION * T2 * (1 if ch.endswith('+') else -1)
         kind = ch.rstrip('+-')
         if kind == 'dm':
-            m = DM(m, D)
+            m = DM(m, f(D))
         elif kind == 'dmH':
-            out = DM(m, D, retH=True)
+            out = DM(m, f(D), retH=True)
             if not (isinstance(out, tuple) and len(out) == 2 and isinstance(out[0], optical_signal)
                     and np.shape(out[1])[-1:] == (n,)):
                 raise CallFormError(f'DM(..., retH=True) returned {type(out).__name__}'
@@ -269,15 +391,27 @@ def run_link(cfg, bits):
         else:
             L = min(50.0, abs(D) / 20.0)                       # km ; beta2 = D/L  (20 ps^2/km unless that needs > 50 km)
             if kind == 'fiber':
-                m = FIBER(m, length=L, alpha=0.2, beta_2=D / L, gamma=0.0)
+                m = FIBER(m, length=f(L), alpha=f(0.2), beta_2=f(D / L), gamma=f(0.0))
             else:
                 with contextlib.redirect_stderr(io.StringIO()):
-                    m = FIBER(m, L, beta_2=D / L, show_progress=True)
+                    m = FIBER(m, f(L), beta_2=f(D / L), show_progress=True)
     pd_kw = {}
     if d['pdopt'] == 'alt':
-        pd_kw = dict(T=77.0, Fn=6.0, i_dark=0.0)
-    y = PD(m, BW=d['bwf'] * R, r=d['r'], R_load=d['RL'], include_noise='ase-only', **pd_kw)
-    return y
+        pd_kw = dict(T=fd(77.0), Fn=f(6.0), i_dark=f(0.0))
+    y = PD(m, BW=f(d['bwf'] * Rq), r=fd(d['r']), R_load=fd(d['RL']),
+           include_noise='ASE-Only' if d['pdopt'] == 'case' else 'ase-only', **pd_kw)
+    return y, dict(sps=sps, instant=fi(sps // 2), tx=txobj)
+
+
+def try_link(cfg, bits, tag, stat):
+    """run_link; a documented call form that misbehaves / a grid outside the quantifier become a finished case result"""
+    try:
+        return run_link(cfg, bits) + (None,)
+    except CallFormError as e:
+        return None, None, res(viol=[(f'link:call-form:{key_class(cfg)}', f'{tag}: {e}')], obs=('call-form', str(e)),
+                               nontrivial=True, stats={stat: 1})
+    except Outside as e:
+        return None, None, res(viol=[], obs=('outside', str(e)), nontrivial=False, stats={stat: 1, 'outside_quantifier': 1})
 
 
 def bits_of(word):
@@ -289,7 +423,8 @@ def key_class(cfg):
     block shows up under the classes that contain that block, so different defects get different keys"""
     d = dict(zip(NAMES, cfg))
     dev = [v for v, b in ((d['pulse'], 'nrz'), (d['layout'], '1pol'), (d['chan'].rstrip('+-'), 'none'), (d['txopt'], 'std'),
-                          ('pd-' + d['pdopt'], 'pd-std')) if v != b]
+                          ('pd-' + d['pdopt'], 'pd-std'), ('bits-' + d['bits'], 'bits-u8'), ('gv-' + d['gv'], 'gv-sps,R'),
+                          ('num-' + d['num'], 'num-float')) if v != b]
     return '+'.join(dev) if dev else 'base'
 
 
@@ -298,33 +433,46 @@ def total(x):
 
 
 # ------------------------------------------------------------------ case: plain link + midway threshold
+THRESHOLD_FORMS = ('float', 'np.float64', '0-d array', 'list of one', 'array of n', 'electrical_signal')
+
+
+def threshold_form(thr, form, n):
+    from opticomlib.typing import electrical_signal
+    return {'float': lambda: float(thr), 'np.float64': lambda: np.float64(thr), '0-d array': lambda: np.array(thr),
+            'list of one': lambda: [float(thr)], 'array of n': lambda: np.full(n, thr),
+            'electrical_signal': lambda: electrical_signal(float(thr))}[form]()
+
+
+def short(word, n=64):
+    return word if len(word) <= n else f'{word[:n]}...({len(word)} bits)'
+
+
 def link_case(case):
     cfg, word = case
     from opticomlib.devices import SAMPLER
     from opticomlib.typing import binary_sequence
     np.random.seed(0)
     bits = bits_of(word)
-    sps = cfg[0]
     kc = key_class(cfg)
+    tag = f'cfg={dict(zip(NAMES, cfg))} word={short(word)}'
     # the link is run under the scripted RNG: a noise-free field through PD('ase-only') must not request a single draw
-    try:
-        with scripted_rng(ScriptedRNG()) as rng:
-            y = run_link(cfg, bits)
-    except CallFormError as e:
-        return res(viol=[(f'link:call-form:{kc}', f'cfg={dict(zip(NAMES, cfg))} word={word}: {e}')], obs=('call-form', str(e)),
-                   nontrivial=True, stats={'link_runs': 1})
+    with scripted_rng(ScriptedRNG()) as rng:
+        y, info, early = try_link(cfg, bits, tag, 'link_runs')
+    if early is not None:
+        return early
+    sps = info['sps']
     viol = []
     if rng.requests:
-        viol.append(('link:random-draw-with-noise-off', f'cfg={cfg} word={word}: the noise-free link requested random numbers: {rng.requests[:2]}'))
+        viol.append(('link:random-draw-with-noise-off', f'{tag}: the noise-free link requested random numbers: {rng.requests[:2]}'))
     if y.len() != bits.size * sps:
-        viol.append(('link:length', f'cfg={cfg} word={word}: PD output has {y.len()} samples, expected {bits.size*sps}'))
-    s = SAMPLER(y, sps // 2)
+        viol.append(('link:length', f'{tag}: PD output has {y.len()} samples, expected {bits.size*sps}'))
+    s = SAMPLER(y, info['instant'])
     tot = total(s)
     if tot.size != bits.size:
-        viol.append(('link:sample-count', f'cfg={cfg} word={word}: SAMPLER returned {tot.size} samples for {bits.size} slots'))
+        viol.append(('link:sample-count', f'{tag}: SAMPLER returned {tot.size} samples for {bits.size} slots'))
         return res(viol=viol, obs=('count', tot.size), nontrivial=True, stats={'link_runs': 1})
     if not np.all(np.isfinite(tot)):
-        viol.append(('link:nonfinite', f'cfg={cfg} word={word}: non-finite received samples'))
+        viol.append(('link:nonfinite', f'{tag}: non-finite received samples'))
         return res(viol=viol, obs=('nonfinite',), nontrivial=True, stats={'link_runs': 1})
     b = bits.astype(bool)
     m1, m0 = tot[b].mean(), tot[~b].mean()
@@ -333,61 +481,100 @@ def link_case(case):
     margin = None
     if not np.array_equal(dec, b):
         bad = np.flatnonzero(dec != b)
-        viol.append((f'link:bits:{kc}', f'cfg={dict(zip(NAMES, cfg))} word={word}: decided {"".join(map(str, dec.astype(int)))} '
+        viol.append((f'link:bits:{kc}', f'{tag}: decided {short("".join(map(str, dec.astype(int))))} '
                      f'(differs at slots {bad.tolist()[:8]}); levels m1={m1:.6g} m0={m0:.6g} thr={thr:.6g}'))
     else:
         margin = float(min(tot[b].min() - thr, thr - tot[~b].max()) / (m1 - m0))
-        # the library's own comparison operator on the sampled signal must give the same decision
-        lib = s > float(thr)
-        ld = np.asarray(lib.data).astype(bool) if isinstance(lib, binary_sequence) else None
-        if ld is None or not np.array_equal(ld, b):
-            viol.append((f'link:gt-operator', f'cfg={dict(zip(NAMES, cfg))} word={word}: (SAMPLER(y) > thr) gave '
-                         f'{None if ld is None else "".join(map(str, ld.astype(int)))}, numpy comparison gives the word'))
+        # the library's own comparison operator on the sampled signal must give the same decision, in whatever documented form
+        # the threshold is written (scalar forms, one-element list, one threshold per sample, an electrical_signal)
+        for form in THRESHOLD_FORMS:
+            lib = s > threshold_form(thr, form, bits.size)
+            ld = np.asarray(lib.data).astype(bool) if isinstance(lib, binary_sequence) else None
+            if ld is None or not np.array_equal(ld, b):
+                viol.append((f'link:gt-operator' + ('' if form == 'float' else ':threshold-form'),
+                             f'{tag}: (SAMPLER(y) > thr), thr given as {form}, gave '
+                             f'{None if ld is None else short("".join(map(str, ld.astype(int))))}, numpy comparison gives the word'))
+                break
     return res(viol=viol, obs=(word, tot.tobytes()), nontrivial=True,
                stats={'link_runs': 1, 'slots': int(bits.size)}, payload=margin)
 
 
 # ------------------------------------------------------------------ case: ook.DSP + ook.BER_analizer
-def check_counter(fn, name, tx_bits, rx_seq, viol, tag):
+SEQ_FORMS = ('bs', 'str', 'str-sep', 'list', 'tuple', 'bool', 'u8', 'i64', 'f64')     # containers of a bit sequence (as_container)
+
+
+def is_bs(x):
+    from opticomlib.typing import binary_sequence
+    return isinstance(x, binary_sequence)
+
+
+def check_counter(fn, name, tx_bits, rx_seq, viol, tag, tx_obj=None, rx_form='bs', rx0=None):
     """BER_analizer('counter') must be exactly 0 for rx == tx[:n] and exactly k/n for every flip set, n = len(rx) = the number of
     compared bits (= the length of 'the sequence with k flipped bits' of the statement).  tx_bits may be longer than rx (the
-    data handed to PPM_ENCODER when its length is not a multiple of log2 M; both counters cut Tx to the received length)."""
+    data handed to PPM_ENCODER when its length is not a multiple of log2 M; both counters cut Tx to the received length).
+    tx_obj: the object passed as Tx (default: a binary_sequence of tx_bits) - e.g. the very container the user handed to DAC /
+    PPM_ENCODER; rx_form: container of the flipped sequences (SEQ_FORMS); rx0: the unflipped received sequence if it is not to
+    be passed as the binary_sequence rx_seq.  An exception of the counter is a violation
+    `<name>.ber:raises:<mixed|raw|plain>-containers` (mixed = exactly one of Tx, Rx is a binary_sequence)."""
     from opticomlib.typing import binary_sequence
     n = int(np.asarray(rx_seq.data).size)
-    tx = binary_sequence(tx_bits.copy())
+    tx = binary_sequence(tx_bits.copy()) if tx_obj is None else tx_obj
     ragged = '' if tx_bits.size == n else f' (Tx has {tx_bits.size} bits, Rx {n})'
-    ksfx = '' if tx_bits.size == n else ':tx-longer'
-    v = fn('counter', Tx=tx, Rx=rx_seq)
-    cnt = 1
+    forms = '' if is_bs(tx) and rx_form == 'bs' else f' [Tx given as {type(tx).__name__}, flipped Rx as {rx_form}]'
+    ksfx = ('' if tx_bits.size == n else ':tx-longer') + (':containers' if forms else '')
+    cnt = 0
+
+    def call(rx, what):
+        nonlocal cnt
+        cnt += 1
+        try:
+            return fn('counter', Tx=tx, Rx=rx)
+        except Exception as e:
+            cls = 'plain' if is_bs(tx) and is_bs(rx) else 'mixed' if is_bs(tx) or is_bs(rx) else 'raw'
+            viol.append((f'{name}.ber:raises:{cls}-containers', f'{tag}: BER_analizer("counter", Tx=<{type(tx).__name__}>, Rx=<{type(rx).__name__}>) '
+                         f'({what}{ragged}) raised {type(e).__name__}: {e}'))
+            return None
+
+    v = call(rx_seq if rx0 is None else rx0, 'decoded output')
+    if v is None:
+        return cnt
     if not (v == 0):
-        viol.append((f'{name}.ber:zero{ksfx}', f'{tag}: BER_analizer(counter) of the decoded output{ragged} = {v!r}, expected exactly 0'))
+        viol.append((f'{name}.ber:zero{ksfx}', f'{tag}: BER_analizer(counter) of the decoded output{ragged}{forms} = {v!r}, expected exactly 0'))
     for fs in flip_sets(n):
         f = tx_bits[:n].copy()
         f[list(fs)] ^= 1
-        v = fn('counter', Tx=tx, Rx=binary_sequence(f))
-        cnt += 1
+        v = call(as_container(f, rx_form), f'{len(fs)} flipped bits')
+        if v is None:
+            break
         if not (v == len(fs) / n):
-            viol.append((f'{name}.ber:k/n{ksfx}', f'{tag}: {len(fs)} flipped bits at {fs} of n={n}{ragged}: BER_analizer(counter) = {v!r}, '
+            viol.append((f'{name}.ber:k/n{ksfx}', f'{tag}: {len(fs)} flipped bits at {fs} of n={n}{ragged}{forms}: BER_analizer(counter) = {v!r}, '
                          f'expected {len(fs)}/{n} = {len(fs)/n!r}'))
             break
     return cnt
 
 
+BW_FORMS = ('float', 'int', 'np.float64', 'np.int64')
+
+
 def ook_case(case):
     cfg, word, seed = case[:3]
-    dspbw = case[3] if len(case) > 3 else None      # ook.DSP(y, BW=dspbw*R): the routine's optional receiver filter
+    opt = case[3] if len(case) > 3 else {}
+    dspbw = opt.get('dspbw')          # ook.DSP(y, BW=dspbw*R): the routine's optional receiver filter, BW written in the number form opt['bwform']
     from opticomlib import ook
     from opticomlib.typing import binary_sequence
     bits = bits_of(word)
-    tag = f'cfg={dict(zip(NAMES, cfg))} n={bits.size} word={word[:40]} kmeans_seed={seed}' + (f' DSP(BW={dspbw}R)' if dspbw else '')
+    tag = f'cfg={dict(zip(NAMES, cfg))} n={bits.size} word={word[:40]} kmeans_seed={seed}' + (f' DSP(BW={dspbw}R as {opt.get("bwform", "float")})' if dspbw else '')
     np.random.seed(seed)            # own the global RNG for the whole case (the link itself must not draw from it)
-    try:
-        y = run_link(cfg, bits)
-    except CallFormError as e:
-        return res(viol=[(f'link:call-form:{key_class(cfg)}', f'{tag}: {e}')], obs=('call-form', str(e)), nontrivial=True,
-                   stats={'ook_dsp_runs': 1})
+    y, info, early = try_link(cfg, bits, tag, 'ook_dsp_runs')
+    if early is not None:
+        return early
     np.random.seed(seed)
-    out = ook.DSP(y) if dspbw is None else ook.DSP(y, BW=dspbw * cfg[NAMES.index('R')])
+    if dspbw is None:
+        out = ook.DSP(y)
+    else:
+        BW = dspbw * cfg[NAMES.index('R')]        # integer-valued for every R of the lattice
+        BW = {'float': float, 'int': int, 'np.float64': np.float64, 'np.int64': np.int64}[opt.get('bwform', 'float')](BW)
+        out = ook.DSP(y, BW=BW)
     viol = []
     if not (isinstance(out, tuple) and len(out) == 3 and isinstance(out[0], binary_sequence)):
         viol.append(('ook.dsp:return-type', f'{tag}: DSP returned {type(out).__name__}'))
@@ -397,11 +584,14 @@ def ook_case(case):
     nber = 0
     if d.size != bits.size or not np.array_equal(d, bits):
         bad = np.flatnonzero(d[:bits.size] != bits[:d.size]).tolist()[:8] if d.size else []
-        viol.append((f'ook.dsp:bits:{key_class(cfg)}' + (':dsp-bw' if dspbw else ''), f'{tag}: DSP returned {d.size} bits, differing at {bad}; rth={rth!r} '
+        viol.append((f'ook.dsp:bits:{key_class(cfg)}' + (':dsp-bw' if dspbw else '') + (':long' if bits.size > 127 else ''),
+                     f'{tag}: DSP returned {d.size} bits, differing at {bad}; rth={rth!r} '
                      f'mu0={getattr(eye_obj, "mu0", None)!r} mu1={getattr(eye_obj, "mu1", None)!r}'))
     else:
-        nber = check_counter(ook.BER_analizer, 'ook', bits, rx, viol, tag)
-    return res(viol=viol, obs=(word, d.tobytes(), repr(float(rth))), nontrivial=(cfg, word, dspbw),
+        # Tx = the very object the user handed to DAC when the case deviates in the container axis (else a binary_sequence)
+        tx_obj = info['tx'] if cfg[NAMES.index('bits')] != 'u8' else None
+        nber = check_counter(ook.BER_analizer, 'ook', bits, rx, viol, tag, tx_obj=tx_obj)
+    return res(viol=viol, obs=(word, d.tobytes(), repr(float(rth))), nontrivial=(cfg, word, dspbw, opt.get('bwform')),
                stats={'ook_dsp_runs': 1, 'ber_calls': nber})
 
 
@@ -420,7 +610,23 @@ def ppm_data(M, which, seed):
         r = 1 if which == 'ragged1' else k - 1
         assert 1 <= r < k
         return seeded(k * nsym + r, seed, 200 + M + 1000 * r)
+    if which in STRUCTURED:
+        # the structured words the quantifier names (alternating, a single 1 or 0, long runs) as PPM DATA: they put the pulses
+        # of all / all but one symbol at the same position, e.g. '1010...' = symbol 2 throughout for M = 4
+        nb = k * nsym
+        return {'alt01': ('01' * nb)[:nb], 'alt10': ('10' * nb)[:nb], 'single1-start': '1' + '0' * (nb - 1),
+                'single1-end': '0' * (nb - 1) + '1', 'single0': '1' * (nb // 2) + '0' + '1' * (nb - nb // 2 - 1),
+                'runs': '0' * (nb // 2) + '1' * (nb // 2)}[which]
+    if which.startswith('tiny'):
+        # 1 / 3 symbols (soft decision only: the eye-based hard decision is given the same >= 32 slots as ook.DSP)
+        return seeded(k * int(which[4:]), seed, 300 + M)
+    if which == 'long':
+        # more slots than GET_EYE looks at (ppm.DSP calls it with nslots=8192): 8192/M + 1 symbols
+        return seeded(k * (8192 // M + 1), seed, 400 + M)
     return seeded(k * nsym, seed, 100 + M)
+
+
+STRUCTURED = ('alt01', 'alt10', 'single1-start', 'single1-end', 'single0', 'runs')
 
 
 def ppm_kinds(M):
@@ -437,44 +643,86 @@ def ref_ppm_slots(data, M):
     return np.array(out, dtype=np.uint8)
 
 
+M_FORMS = ('int', 'np.int64', 'np.int32', 'np.uint8', '0-d array')
+
+
+def m_form(M, form):
+    return {'int': int, 'np.int64': np.int64, 'np.int32': np.int32, 'np.uint8': np.uint8, '0-d array': np.array}[form](M)
+
+
 def ppm_case(case):
-    cfg, M, which, data, seed = case
+    cfg, M, which, data, seed = case[:5]
+    opt = case[5] if len(case) > 5 else {}
+    mform = opt.get('mform', 'int')             # the order M written as a Python int / numpy integer (M_FORMS)
     from opticomlib import ppm
+    from opticomlib.devices import SAMPLER
     from opticomlib.typing import binary_sequence
     np.random.seed(seed)
     dbits = bits_of(data)
-    tag = f'cfg={dict(zip(NAMES, cfg))} M={M} data({which})={data} seed={seed}'
+    tag = f'cfg={dict(zip(NAMES, cfg))} M={M}' + (f' (as {mform})' if mform != 'int' else '') + f' data({which})={short(data)} seed={seed}'
     viol = []
-    slots = ppm.PPM_ENCODER(binary_sequence(dbits.copy()), M)
+    Mf = m_form(M, mform)
+    form = cfg[NAMES.index('bits')]
+    # the data word in the container of the `bits` axis (baseline: a binary_sequence); the same object is the Tx of the counter
+    tx_obj = binary_sequence(dbits.copy()) if form == 'u8' else as_container(dbits, form)
+    slots = ppm.PPM_ENCODER(tx_obj, Mf)
     sl = np.asarray(slots.data).astype(np.uint8)
     ref = ref_ppm_slots(data, M)
     if not np.array_equal(sl, ref):
-        viol.append(('ppm.encoder:slots', f'{tag}: PPM_ENCODER gave {"".join(map(str, sl))}, reference {"".join(map(str, ref))}'))
+        viol.append(('ppm.encoder:slots', f'{tag}: PPM_ENCODER(<{type(tx_obj).__name__}>) gave {short("".join(map(str, sl)))}, reference {short("".join(map(str, ref)))}'))
         return res(viol=viol, obs=('enc', sl.tobytes()), nontrivial=True, stats={'ppm_runs': 1})
     np.random.seed(seed)
-    try:
-        y = run_link(cfg, sl)
-    except CallFormError as e:
-        return res(viol=[(f'link:call-form:{key_class(cfg)}', f'{tag}: {e}')], obs=('call-form', str(e)), nontrivial=True,
-                   stats={'ppm_runs': 1})
+    y, info, early = try_link(cfg, sl, tag, 'ppm_runs')
+    if early is not None:
+        return early
     k = int(np.log2(M))
     sent = dbits[:dbits.size - dbits.size % k]      # the whole symbols = what PPM_ENCODER transmitted (asserted above)
+    # explicit threshold for the hard decision: midway between the received levels (the decision rule of the statement's first
+    # sentence, executed by the packaged routine: SAMPLER(sps//2) -> '>' -> HDD (nothing to repair) -> PPM_DECODER)
+    tot = total(SAMPLER(y, info['instant']))
+    thr = None
+    if tot.size == sl.size and np.all(np.isfinite(tot)):
+        thr = (tot[sl == 1].mean() + tot[sl == 0].mean()) / 2
+        thr = (float, np.float64, np.array)[seed % 3](thr)
+    # (key label, decision string, input form, keyword arguments, variant)
+    runs = [('soft', 'soft', 'pd', {}, ''), ('hard', 'hard', 'pd', {}, '')]
+    if which.startswith('tiny'):
+        runs = runs[:1]
+    elif thr is not None:
+        runs.append(('hard-thr', 'hard', 'pd', {'threshold': thr}, ''))
+    if which == 'seeded':
+        # thin slice of the spelling / input-container classes: the decision string in another letter case (the routine lower-cases
+        # it; a ValueError would be accepted as "spelling rejected"), the received record as the plain ndarray signal+noise
+        # (documented Array_Like input)
+        runs += [('soft', 'Soft', 'pd', {}, ':spelling'), ('soft', 'soft', 'nd', {}, ':ndarray-input'),
+                 ('soft', 'SOFT', 'nd', {}, ':spelling+ndarray-input'), ('hard', 'HARD', 'pd', {}, ':spelling')]
+    elif which == 'prbs':
+        runs += [('hard', 'hard', 'nd', {}, ':ndarray-input')]
     obs = [data, M]
     nber = 0
-    for decision in ('soft', 'hard'):
+    for label, decision, yform, kw, variant in runs:
         np.random.seed(seed)
-        rx = ppm.DSP(y, M, decision=decision)
+        yin = total(y) if yform == 'nd' else y
+        try:
+            rx = ppm.DSP(yin, Mf, decision=decision, **kw)
+        except ValueError:
+            if 'spelling' in variant:
+                obs.append('spelling-rejected')
+                continue
+            raise
         if not isinstance(rx, binary_sequence):
-            viol.append((f'ppm.dsp:return-type:{decision}', f'{tag}: DSP returned {type(rx).__name__}'))
+            viol.append((f'ppm.dsp:return-type:{label}', f'{tag}: DSP(decision={decision!r}) returned {type(rx).__name__}'))
             continue
         d = np.asarray(rx.data).astype(np.uint8)
         obs.append(d.tobytes())
         if d.size != sent.size or not np.array_equal(d, sent):
-            viol.append((f'ppm.dsp:{decision}:bits:{which}-data', f'{tag}: ppm.DSP({decision}) returned {"".join(map(str, d))}'))
-        else:
+            viol.append((f'ppm.dsp:{label}:bits:{which}-data{variant}' + (':M-form' if mform != 'int' else ''),
+                         f'{tag}: ppm.DSP(<{"ndarray" if yform == "nd" else "PD output"}>, M, decision={decision!r}'
+                         + (f', threshold={kw["threshold"]!r}' if kw else '') + f') returned {short("".join(map(str, d)))}'))
+        elif not variant and not kw:
             # Tx = the data word the user handed to the encoder (longer than Rx for the ragged words)
-            nber += check_counter(ppm.BER_analizer, 'ppm', dbits, rx, viol, tag + f' decision={decision}')
-    return res(viol=viol, obs=tuple(obs), nontrivial=(cfg, M, data), stats={'ppm_runs': 1, 'ber_calls': nber})
+            nber += check_counter(ppm.BER_analizer, 'ppm', dbits, rx, viol, tag + f' decision={decision}', tx_obj=tx_obj)
+    return res(viol=viol, obs=tuple(obs), nontrivial=(cfg, M, data, mform), stats={'ppm_runs': 1, 'ber_calls': nber})
 
 
 # ------------------------------------------------------------------ case: BER counters on plain sequences
@@ -482,21 +730,31 @@ TX_EXTRA = ('', '0', '1', '01', '110')     # bits of Tx beyond the end of Rx (Tx
 
 
 def ber_case(case):
-    which, word, extra = case
+    which, word, extra = case[:3]
+    txform, rxform = case[3:5] if len(case) > 3 else ('bs', 'bs')      # containers of Tx and Rx (SEQ_FORMS)
     from opticomlib import ook, ppm
     from opticomlib.typing import binary_sequence
     fn = ook.BER_analizer if which == 'ook' else ppm.BER_analizer
     bits = bits_of(word)
     txb = np.concatenate([bits, bits_of(extra)]) if extra else bits
     viol = []
-    n = check_counter(fn, which, txb, binary_sequence(bits.copy()), viol,
-                      f'{which}.BER_analizer n={bits.size} word={word[:32]} tx-extra={extra!r}')
-    # complement: every compared bit wrong -> exactly 1
-    v = fn('counter', Tx=binary_sequence(txb.copy()), Rx=binary_sequence(1 - bits))
-    if not (v == 1):
-        viol.append((f'{which}.ber:k/n' + (':tx-longer' if extra else ''),
-                     f'{which}.BER_analizer: all {bits.size} compared bits flipped (Tx has {txb.size} bits) -> {v!r}, expected 1'))
-    return res(viol=viol, obs=(which, word, extra), nontrivial=True, stats={'ber_calls': n + 1})
+    tag = f'{which}.BER_analizer n={bits.size} word={word[:32]} tx-extra={extra!r} Tx as {txform}, Rx as {rxform}'
+    tx_obj = as_container(txb.copy(), txform)
+    n = check_counter(fn, which, txb, binary_sequence(bits.copy()), viol, tag, tx_obj=tx_obj, rx_form=rxform,
+                      rx0=as_container(bits.copy(), rxform))
+    if not viol:
+        # complement: every compared bit wrong -> exactly 1
+        v = fn('counter', Tx=tx_obj, Rx=as_container(1 - bits, rxform))
+        if not (v == 1):
+            viol.append((f'{which}.ber:k/n' + (':tx-longer' if extra else '') + ('' if (txform, rxform) == ('bs', 'bs') else ':containers'),
+                         f'{tag}: all {bits.size} compared bits flipped (Tx has {txb.size} bits) -> {v!r}, expected 1'))
+    # Rx LONGER than Tx: outside the statement ("k/n for a sequence with k flipped bits" presupposes a transmitted bit for every
+    # received one); the library answers with its "must have the same length" AssertionError.  Recorded, not asserted.
+    try:
+        longer = repr(fn('counter', Tx=binary_sequence(bits.copy()), Rx=binary_sequence(np.concatenate([bits, [1]]).astype(np.uint8))))
+    except Exception as e:
+        longer = type(e).__name__
+    return res(viol=viol, obs=(which, word, extra, txform, rxform, longer), nontrivial=True, stats={'ber_calls': n + 2})
 
 
 # ------------------------------------------------------------------ driver
@@ -505,6 +763,9 @@ def run(ctx):
     seed = ctx.seed
     k_lat = 3 if quick else 3
     nw = 8 if quick else 10
+    short_lengths = (2, 3, 4, 5) if quick else (2, 3, 4, 5, 6, 7)
+    long_lengths = (128, 129, 4097) if quick else (127, 128, 129, 1023, 1024, 1025, 4095, 4096, 4097, 8193)
+    dsp_long_lengths = (128, 129, 4097, 8193) if quick else (128, 129, 255, 256, 4095, 4096, 4097, 8191, 8192, 8193, 8194, 10001)
     lat1 = lattice(1)
     latk = lattice(k_lat)
     if quick:
@@ -536,12 +797,20 @@ def run(ctx):
     ctx.assume('VERIF_SEED selects only the content of the seeded-random words')
 
     # --- part 1: all short words at k<=1
+    import time
     words = all_words(nw)
     cases = [(c, w) for c in lat1 for w in words]
-    import time
     t0 = time.time()
     m1 = ctx.pmap('link.words', link_case, cases, horizon=30)
     print(f'[C03] link.words done in {time.time()-t0:.1f}s', flush=True); t0 = time.time()
+
+    # --- part 1a: the shortest legal records: every word of length 2..5 (thorough ..7) whose waveform exceeds the 16-sample padding
+    cases = [(c, w) for c in lat1 for n in short_lengths for w in all_words(n) if n * c[0] > 16]
+    m1a = ctx.pmap('link.short', link_case, cases, horizon=30)
+    # --- part 1b: long records around one PRBS7 period, the block size 1024, GET_EYE's default nslots 4096 and the 8192 of the DSPs
+    cases = [(c, w) for c in lat1 for n in long_lengths for w in long_words(n, seed)]
+    m1a += ctx.pmap('link.long', link_case, cases, horizon=120)
+    print(f'[C03] link.short/long done in {time.time()-t0:.1f}s', flush=True); t0 = time.time()
 
     m1b = []
     if not quick:
@@ -556,7 +825,7 @@ def run(ctx):
     cases = [(c, w) for c in latk for w in fw]
     m2 = ctx.pmap('link.lattice', link_case, cases, horizon=30)
     print(f'[C03] link.lattice done in {time.time()-t0:.1f}s', flush=True); t0 = time.time()
-    ms = [m for m in (m1 + m1b + m2) if m is not None]
+    ms = [m for m in (m1 + m1a + m1b + m2) if m is not None]
     if ms:
         ctx.extra['min_relative_decision_margin'] = round(min(ms), 4)   # (distance of the closest sample to the threshold)/(m1-m0); 0.5 = ideal
         print(f'[C03] smallest relative decision margin over {len(ms)} link runs: {min(ms):.4f} (0.5 = ideal levels)', flush=True)
@@ -576,27 +845,53 @@ def run(ctx):
     ctx.space('config.dsp', len(dsp_cfgs))
     ctx.space('config.dsp.eye-pairs', len(eye_tuples(2)))
     # KMeans seed alphabet: all seeds on the k<=1 (thorough k<=2) lattice and the corners; the quick tier runs the further
-    # eye pairs with the first seed only
+    # eye pairs and the notation deviations (same field as the baseline) with the first seed only
     pair_only = set(extra) - set(CORNERS) if quick else set()
-    seeds_of = lambda c: seeds[:1] if c in pair_only else seeds
+    light = pair_only | ({c for c in dsp_cfgs if is_notation(c)} if quick else set())
+    seeds_of = lambda c: seeds[:1] if c in light else seeds
     cases = [(c, w, s) for c in dsp_cfgs for w in ook_words for s in seeds_of(c)]
-    # the routine's own optional argument: ook.DSP(y, BW=2R) (min(2R, 0.4 fs)) on the k<=1 configurations, first seed
-    cases += [(c, w, seeds[0], min(2.0, 0.4 * c[0])) for c in lat1 for w in ook_words]
+    # the routine's own optional argument: ook.DSP(y, BW=2R) (min(2R, 0.4 fs)) on the k<=1 configurations, first seed, the value
+    # written as float / int / np.float64 / np.int64 (quick: one form per word in rotation; thorough: every form)
+    for c in lat1:
+        for i, w in enumerate(ook_words):
+            for bf in ([BW_FORMS[i % len(BW_FORMS)]] if quick else BW_FORMS):
+                cases.append((c, w, seeds[0], {'dspbw': min(2.0, 0.4 * c[0]), 'bwform': bf}))
+    # long records: one more than a PRBS7 period, around GET_EYE's default nslots (4096) and around / beyond the nslots=8192 that
+    # ook.DSP passes (the eye is estimated on the first 8192 slots, the decision must cover the whole record)
+    long_cfgs = LONG_CFGS if quick else [c for c in lat1 if not is_notation(c)] + [c for c in LONG_CFGS if ndev(c) > 1]
+    cases += [(c, seeded(n, seed, n), seeds[0]) for c in long_cfgs for n in dsp_long_lengths]
     if not quick:
         # thorough: every triple of eye-shaping deviations for ook.DSP
         cases += [(c, w, s) for c in eye_tuples(3) if c not in have for w in ook_words for s in seeds]
-    ctx.pmap('ook.dsp', ook_case, cases, horizon=120)
+    ctx.pmap('ook.dsp', ook_case, cases, horizon=240)
     print(f'[C03] ook.dsp done in {time.time()-t0:.1f}s', flush=True); t0 = time.time()
 
     # --- part 4: ppm.DSP
     cases = []
-    for c in dsp_cfgs:
-        for M in (2, 4, 8, 16):
+    plain = [c for c in lat1 if not is_notation(c)] + CORNERS       # where the further data words are run
+    for ci, c in enumerate(dsp_cfgs):
+        for mi, M in enumerate((2, 4, 8, 16)):
             # the ragged data words test the length handling, not the eye: not repeated on the quick tier's extra eye pairs
-            for which in (ppm_kinds(M)[:3] if c in pair_only else ppm_kinds(M)):
-                for s in seeds_of(c):
-                    cases.append((c, M, which, ppm_data(M, which, seed), s))
-    ctx.pmap('ppm.dsp', ppm_case, cases, horizon=120)
+            for ki, which in enumerate(ppm_kinds(M)[:3] if c in pair_only else ppm_kinds(M)):
+                for si, s in enumerate(seeds_of(c)):
+                    # the order M as a Python int with the first seed, as a numpy integer (rotating over M_FORMS) with the others
+                    opt = {} if si == 0 else {'mform': M_FORMS[1 + (ci + mi + ki + si) % (len(M_FORMS) - 1)]}
+                    cases.append((c, M, which, ppm_data(M, which, seed), s) + ((opt,) if opt else ()))
+    for c in plain:
+        for M in (2, 4, 8, 16):
+            k = int(np.log2(M))
+            # structured data words (alternating, single 1 / 0, runs), first seed
+            for which in STRUCTURED:
+                if not (M == 2 and which == 'alt01'):            # = the ramp word
+                    cases.append((c, M, which, ppm_data(M, which, seed), seeds[0]))
+            # 1 and 3 symbols (soft decision only), where the data has >= 2 bits and the waveform exceeds the padding
+            for nsym in (1, 3):
+                if k * nsym >= 2 and nsym * M * c[0] > 16:
+                    cases.append((c, M, f'tiny{nsym}', ppm_data(M, f'tiny{nsym}', seed), seeds[0]))
+    for c in long_cfgs:
+        for M in (2, 4, 8, 16):
+            cases.append((c, M, 'long', ppm_data(M, 'long', seed), seeds[0]))
+    ctx.pmap('ppm.dsp', ppm_case, cases, horizon=240)
     print(f'[C03] ppm.dsp done in {time.time()-t0:.1f}s', flush=True); t0 = time.time()
 
     # --- part 5: counters on plain sequences
@@ -604,4 +899,9 @@ def run(ctx):
     if not quick:
         bw += all_words(6)
     cases = [(which, w, x) for x in TX_EXTRA for which in ('ook', 'ppm') for w in bw]
+    # every pair of containers for (Tx, Rx) - binary_sequence, str, str with separators, list, tuple, ndarray bool/uint8/int64/
+    # float64 -, equal lengths and Tx longer
+    cw = [prbs7(8), seeded(33, seed, 33)] + ([] if quick else [prbs7(127)])
+    cases += [(which, w, x, tf, rf) for x in ('', '01') for which in ('ook', 'ppm') for w in cw
+              for tf in SEQ_FORMS for rf in SEQ_FORMS if (tf, rf) != ('bs', 'bs')]
     ctx.pmap('ber.counter', ber_case, cases, horizon=30)
